@@ -264,9 +264,11 @@ def check_lookup_fill(ctx, F):
                 if rng[0] == 'agg' and isinstance(rng[1], tuple) and rng[1][1].endswith(('::Range', 'RangeFrom', 'RangeTo', 'RangeInclusive')):
                     seen = True
                     base = e['args_val'][0]
+                    while base[0] == 'call' and base[1].endswith(('::to_vec', '::clone')) and base[2]:
+                        base = base[2][0]       # iterating the freshly made copy is iterating the same contents
                     if base != src:
                         bad = 'iterates %s, not the model\'s cdf' % sym.show(base)[:60]
-                    elif not (rng[1][1].endswith('::Range') and rng[2][0] == sym.mk_int(1) and rng[2][1] == sym.mk_bin('Sub', sym.mk_len(src), sym.mk_int(1))):
+                    elif not (rng[1][1].endswith('::Range') and rng[2][0] == sym.mk_int(1) and effects.strip_uid(rng[2][1]) == sym.mk_bin('Sub', sym.mk_len(src), sym.mk_int(1))):
                         bad = 'iterates cdf[%s]: the possibly wrapped last entry (wrapping_pow2(PRECISION) == 0 at full precision) takes part in the fill, unlike in the searched decoder (..len-1)' % sym.show(rng)[:80]
             if e['kind'] == 'literal' and e['adt'].endswith('ContiguousLookupDecoderModel'):
                 c = dict(zip(e['fnames'], e['vals'])).get('cdf')
